@@ -139,6 +139,40 @@ CHECKS = {
          "with leading/trailing white space are not representable in the header format (values are trimmed) and are not generated.",
     technique="TLA+ format model checked exhaustively; its enumeration replayed on real code with an identity oracle judged by TLC",
     design="4 C09"),
+ "C06": dict(
+    level="model_checking",
+    text="Lzhuf.tla (executable format specification) is checked exhaustively in a scaled configuration: for every input up to the bound "
+         "and every coding the nondeterministic encoder may choose (any match length/distance, overlapping matches, matches into the "
+         "initial window, across tree rebuild), the decoder returns the input and consumes exactly the bits produced. Binding: the real "
+         "Writer/Reader on exhaustive short strings, runs, periodic and window-boundary shapes, random/text/skewed data and a 70 000 "
+         "symbol input, all write compositions of short inputs and 59/60/61 pre-fill splits, read schedules incl. 1-byte reads, with "
+         "and without CRC; every API call is an event validated by TLC against LzhufStream.tla (bytes, EOF exactly at the end, "
+         "Close = nil, compressed bytes independent of the write split).",
+    note="Trusted: TLC, byte comparison in the harness. Inputs beyond the exhaustive core are generated families.",
+    technique="TLA+ executable codec specification (scaled exhaustive) + TLC validation of recorded Writer/Reader API traces",
+    design="4 C06"),
+ "C07": dict(
+    level="model_checking",
+    text="The independent codec is the TLA+ module Lzhuf.tla evaluated by TLC in the canonical configuration (N=2048, F=60, adaptive "
+         "Huffman with rebuild at 0x8000, position code derived canonically from its length profile). Library -> reference: streams of "
+         "the real Writer and the repository's golden .lzh files are decoded by TLC and must equal the input, using the stream's bits "
+         "up to the padding; the B2 header is judged by an independent CRC. Reference -> library: token parses (nearest, farthest, "
+         "shortest, random, literal-only; overlapping and initial-window matches) are validated and coded by TLC and the real Reader "
+         "must decode them under several buffer sizes, with and without CRC, Close = nil.",
+    note="TLC evaluates ~2-3 k symbols/s, so reference decoding is budgeted (quick 60 k symbols, thorough 900 k incl. a stream crossing "
+         "the tree rebuild); larger inputs are covered by C06's self-consistency only.",
+    technique="executable TLA+ codec evaluated by TLC as the independent implementation, both directions",
+    design="4 C07"),
+ "C08": dict(
+    level="exploration",
+    text="Every truncation, bit flips, header edits (sizes -1, 0, true+-1, +60, 2^31-1, -2^31, with/without repaired CRC), CRC edits, "
+         "splices of valid streams and random bytes with plausible headers are read through the real Reader with buffer sizes "
+         "{1,2,59,60,61,4096}; every NewReader/Read/Close is an event validated by TLC against LzhufStream.tla (no panic, no (0,nil) "
+         "spinning within a read budget, sticky errors, at most the declared size, Close = nil only if CRC and size hold). For "
+         "survivors (Close = nil) the canonical decoding is computed by Lzhuf.tla (TLC) and must equal the bytes read.",
+    note="Mutations are sampled with a stride in the quick tier; survivors judged by the reference codec are budgeted.",
+    technique="mutation exploration judged by TLC trace validation against the stream contract + TLA+ reference decoding of survivors",
+    design="4 C08"),
 }
 
 NOT_YET = "check not built yet (work in progress; see DESIGN.md section 8 for the build order)"
